@@ -756,7 +756,7 @@ class Heap:
             err = float(np.max(np.abs(got - want) / np.outer(d_, d_)))
             ctx.checks += 1
             ctx.probe("local_covariance_against_own_axes")
-            if err > 1e-8:
+            if err > 1e-6:  # (rounding of the form round trips of the state, amplified by ill-conditioned matrices: 1.4e-8 seen in a thorough soak; another state gives 1e-3 or more)
                 ctx.violate("no-aliasing", {"kind": "covariance_converted_with_another_state"}, f"{where}: the covariance of object {j} converted to {target} differs from the rotation built on this object's own position and velocity (relative {err:.3e}): it was converted with the state of another object")
 
     # -- assignments -----------------------------------------------------------
